@@ -26,6 +26,8 @@ def op_to_labels(op):
         return "[LConnect %s]" % f[1]
     if k == "RESTART":
         return "[LRestart]"
+    if k == "ADMIN":
+        return "[]"
     c = f[1]
     if k == "DROP":
         return "[LSocketLoss %s]" % c
